@@ -125,6 +125,7 @@ let () =
       expect toks i "A"; let a = parse_val toks i in
       expect toks i "B"; let b = parse_val toks i in
       expect toks i "X"; let x = parse_val toks i in
+      expect toks i "C"; let c = parse_val toks i in
       expect toks i "SUB";
       let sub = Array.to_list (Array.map int_of_string (Array.sub toks !i (Array.length toks - !i))) in
       let d = x_diff ko s a b in
@@ -135,6 +136,10 @@ let () =
       Printf.printf "%s AS %s\n" id (show_val ps (List.fold_left (fun acc e -> x_apply_single s acc e) a d));
       let xv = show_val ps (x_apply s x d) in
       Printf.printf "%s X %s\n" id xv;
+      let both = d @ x_diff ko s b c in
+      let v2 = show_val ps (x_apply s a both) in
+      List.iter (fun tag -> Printf.printf "%s %s %s\n" id tag v2) ["A2"; "AR2"; "AM2"];
+      Printf.printf "%s AS2 %s\n" id (show_val ps (List.fold_left (fun acc e -> x_apply_single s acc e) a both));
       let n = List.length d in
       let pick = if n = 0 then [] else begin
         let seen = Array.make n false in
